@@ -100,6 +100,8 @@ def parse_race_logs(root):
 def eval_case(ctx, case):
     ifaces = c01.case_ifaces(case)
     root, info, usable, note = drvrun.prepare(ctx, case, ifaces, ctx.known)
+    if root is None and isinstance(note, dict) and note.get("crash"):
+        return Verdict.violated(note["crash"], note, ["tool-crash-during-generation"])
     if root is None:
         return Verdict.skipped(note) if usable == [] else Verdict.inconclusive(note)
     if not usable:
